@@ -444,4 +444,70 @@ theorem classLogR_smallInt (x : List Val) (B : Int) (hB : 1 ≤ B) (hx : SmallIn
   simp only [convTimings, toField_intSeries x hI, defaultTimings_fix _ hN]
   rfl
 
+
+/-! ### the constructor in `FIELD` arithmetic under power-of-two rescalings -/
+
+/-- no sample and no timing is subnormal, before or after the rescaling: the conversions to
+`FIELD` commute with it -/
+def NoUflData (x : List Val) (t : List ℚ) (a c : Int) : Prop :=
+  (∀ r : ℚ, some r ∈ x → NoUfl r a) ∧ (∀ r ∈ t, NoUfl r c)
+
+theorem toField_scale (x : List Val) (a : Int) (h : ∀ r : ℚ, some r ∈ x → NoUfl r a) :
+    toField rndF32 (scaleVals a x) = scaleVals a (toField rndF32 x) := by
+  unfold toField scaleVals
+  rw [List.map_map, List.map_map]
+  apply List.map_congr_left
+  intro v hv
+  cases v with
+  | none => rfl
+  | some r =>
+    simp only [Function.comp, Option.map_some]
+    rw [rndF32_scale r a (h r hv).1 (h r hv).2]
+
+theorem map_rnd_scaleTimes (t : List ℚ) (c : Int) (h : ∀ r ∈ t, NoUfl r c) :
+    (scaleTimes c t).map rndF32 = scaleTimes c (t.map rndF32) := by
+  unfold scaleTimes
+  rw [List.map_map, List.map_map]
+  apply List.map_congr_left
+  intro r hr
+  simp only [Function.comp]
+  rw [rndF32_scale r c (h r hr).1 (h r hr).2]
+
+theorem nanMask_scaleVals (a : Int) (x : List Val) : nanMask (scaleVals a x) = nanMask x := by
+  simp only [nanMask, scaleVals, List.map_map]
+  apply List.map_congr_left
+  intro v _
+  cases v <;> rfl
+
+theorem scaleVals_length (a : Int) (x : List Val) : (scaleVals a x).length = x.length := by
+  simp [scaleVals]
+
+/-- **natural graph, given timings** -/
+theorem classLogR_scale (x : List Val) (t : List ℚ) (a c : Int) (missing : Bool)
+    (hd : NoUflData x t a c)
+    (h : NoUflOn (toField rndF32 x) (t.map rndF32) x.length a c) :
+    classLogR rndF32 (scaleVals a x) (some (scaleTimes c t)) missing false
+      = classLogR rndF32 x (some t) missing false := by
+  simp only [classLogR, toField_scale x a hd.1, map_rnd_scaleTimes t c hd.2, nanMask_scaleVals,
+    scaleVals_length, toField_length, Bool.not_false, if_true]
+  exact kernelNR_scale _ _ _ _ a c h
+
+theorem scaleTimes_zero (t : List ℚ) : scaleTimes 0 t = t := by
+  unfold scaleTimes
+  have : (fun r : ℚ => pow2 0 * r) = id := by funext r; simp [pow2_zero']
+  rw [this, List.map_id]
+
+/-- **natural graph, default timings** (only the values are rescaled) -/
+theorem classLogR_scale_default (x : List Val) (a : Int) (missing : Bool)
+    (hd : ∀ r : ℚ, some r ∈ x → NoUfl r a)
+    (h : NoUflOn (toField rndF32 x) ((defaultTimings x.length).map rndF32) x.length a 0) :
+    classLogR rndF32 (scaleVals a x) none missing false
+      = classLogR rndF32 x none missing false := by
+  simp only [classLogR, toField_scale x a hd, nanMask_scaleVals,
+    scaleVals_length, toField_length, Bool.not_false, if_true]
+  have := kernelNR_scale (toField rndF32 x) ((defaultTimings x.length).map rndF32)
+    (if missing then some (nanMask (toField rndF32 x)) else none) x.length a 0 h
+  rw [scaleTimes_zero] at this
+  exact this
+
 end Pyunicorn.Visibility
